@@ -10,8 +10,20 @@ abbrev Str := SigModel.Promql.Str
 theorem cutLabel_append (n p : Str) : cutLabel n (n ++ p) = p := by
   simp [cutLabel]
 
-theorem labelSetOf_append (n p : Str) : labelSetOf n (n ++ p) = canonLabel p := by
-  simp [labelSetOf, cutLabel]
+/-- labelPartOfGroupID (repair c09-25) returns the label part of an id that is the metric name followed by a label
+part (empty, or beginning with '{'), whatever bytes the name and the rest of the part contain -/
+theorem cutLabel?_append (n p : Str) (hp : partOK p) : cutLabel? n (n ++ p) = some p := by
+  have hpre : n.isPrefixOf (n ++ p) = true := by
+    rw [List.isPrefixOf_iff_prefix]; exact List.prefix_append n p
+  have hdrop : (n ++ p).drop n.length = p := by simp
+  unfold cutLabel?
+  rw [hpre, hdrop]
+  rcases hp with rfl | hp
+  · simp
+  · simp [hp]
+
+theorem labelSetOf_append (n p : Str) (hp : partOK p) : labelSetOf n (n ++ p) = canonLabel p := by
+  simp [labelSetOf, cutLabel?_append n p hp]
 
 theorem hasId_iff (v : Vec) (id : Str) : hasId v id = true ↔ id ∈ v.map (·.1) := by
   simp only [hasId, lookupPts, Option.isSome_map, List.find?_isSome, List.mem_map]
@@ -34,7 +46,8 @@ theorem outIds_leftPass (op : Op) (b : Bool) (l r : Res) :
       (vecIds l).filter (fun lid => hasId r.series (partnerId l.name (rKey r) lid) || op == .or || op == .unless) := by
   simp only [outIds, leftPass, vecIds]
   exact map_fst_filterMap l.series
-    (fun lid => hasId r.series (partnerId l.name (rKey r) lid) || op == .or || op == .unless) _
+    (fun lid => hasId r.series (partnerId l.name (rKey r) lid) || op == .or || op == .unless)
+    (fun e => leftPts op b e.2 (lookupPts r.series (partnerId l.name (rKey r) e.1)))
 
 /-- picking the smallest element of a list: some element of the list, `none` only for the empty list -/
 theorem foldl_min_mem (xs : List Str) (acc : Option Str) :
@@ -80,36 +93,36 @@ theorem foldl_min_mem (xs : List Str) (acc : Option Str) :
           have := this.2 hn
           simp at this
 
-/-- a partner is a right id, long enough, whose label part has the canonical form asked for -/
+/-- a partner is a right id whose label part has the canonical form asked for -/
 theorem partnerOf_some (r : Str × List Str) (c rid : Str) (h : partnerOf r c = some rid) :
-    rid ∈ r.2 ∧ rid.length ≥ r.1.length ∧ canonLabel (cutLabel r.1 rid) = c := by
+    rid ∈ r.2 ∧ (cutLabel? r.1 rid).map canonLabel = some c := by
   unfold partnerOf at h
   have := (foldl_min_mem _ none).1 rid h
   rcases this with hm | hm
-  · simp only [List.mem_filter, Bool.and_eq_true, decide_eq_true_eq, beq_iff_eq] at hm
-    exact ⟨hm.1, hm.2.1, hm.2.2⟩
+  · simp only [List.mem_filter, beq_iff_eq] at hm
+    exact ⟨hm.1, hm.2⟩
   · cases hm
 
 /-- … and there is one whenever some right id qualifies -/
-theorem partnerOf_isSome (r : Str × List Str) (c rid : Str) (hm : rid ∈ r.2) (hl : rid.length ≥ r.1.length)
-    (hc : canonLabel (cutLabel r.1 rid) = c) : (partnerOf r c).isSome = true := by
+theorem partnerOf_isSome (r : Str × List Str) (c rid : Str) (hm : rid ∈ r.2)
+    (hc : (cutLabel? r.1 rid).map canonLabel = some c) : (partnerOf r c).isSome = true := by
   cases h : partnerOf r c with
   | some _ => rfl
   | none =>
     unfold partnerOf at h
     have := ((foldl_min_mem _ none).2 h).1
-    have hmem : rid ∈ r.2.filter (fun rid => decide (rid.length ≥ r.1.length) && canonLabel (cutLabel r.1 rid) == c) := by
-      simp [List.mem_filter, hm, hl, hc]
+    have hmem : rid ∈ r.2.filter (fun rid => (cutLabel? r.1 rid).map canonLabel == some c) := by
+      simp [List.mem_filter, hm, hc]
     rw [this] at hmem
     cases hmem
 
-/-- arithmetic, comparison and `and` (no right id is the empty string): an id is in the answer iff it is a left id,
-long enough, and some right id (long enough) has a label part with the same canonical form -/
+/-- arithmetic, comparison and `and` (no right id is the empty string): an id is in the answer iff it is a left id
+with a label part and some right id has a label part with the same canonical form -/
 theorem mem_binop_match (op : Op) (b : Bool) (l r : Res) (hop : op ≠ .or ∧ op ≠ .unless)
     (hne : ([] : Str) ∉ vecIds r) (id : Str) :
     id ∈ outIds (binop op b l r) ↔
-      id ∈ vecIds l ∧ id.length ≥ l.name.length ∧
-        ∃ rid ∈ vecIds r, rid.length ≥ r.name.length ∧ canonLabel (cutLabel r.name rid) = canonLabel (cutLabel l.name id) := by
+      id ∈ vecIds l ∧ ∃ p, cutLabel? l.name id = some p ∧
+        ∃ rid ∈ vecIds r, (cutLabel? r.name rid).map canonLabel = some (canonLabel p) := by
   have e : binop op b l r = leftPass op b l r := by
     cases op <;> simp_all [binop]
   rw [e, outIds_leftPass]
@@ -118,45 +131,100 @@ theorem mem_binop_match (op : Op) (b : Bool) (l r : Res) (hop : op ≠ .or ∧ o
   · rintro ⟨hid, hp⟩
     refine ⟨hid, ?_⟩
     unfold partnerId at hp
-    by_cases hl : id.length ≥ l.name.length
-    · simp only [hl, if_true] at hp
-      cases hpo : partnerOf (rKey r) (canonLabel (cutLabel l.name id)) with
+    cases hc : cutLabel? l.name id with
+    | none =>
+      rw [hc] at hp
+      exact absurd hp hne
+    | some p =>
+      rw [hc] at hp
+      simp only at hp
+      cases hpo : partnerOf (rKey r) (canonLabel p) with
       | none =>
         rw [hpo] at hp
         exact absurd hp hne
       | some rid =>
         have := partnerOf_some (rKey r) _ rid hpo
-        exact ⟨hl, rid, this.1, this.2.1, this.2.2⟩
-    · simp only [hl, if_false] at hp
-      exact absurd hp hne
-  · rintro ⟨hid, hl, rid, hrm, hrl, hc⟩
+        exact ⟨p, rfl, rid, this.1, this.2⟩
+  · rintro ⟨hid, p, hc, rid, hrm, hrc⟩
     refine ⟨hid, ?_⟩
     unfold partnerId
-    simp only [hl, if_true]
-    have hs := partnerOf_isSome (rKey r) _ rid hrm hrl hc
-    cases hpo : partnerOf (rKey r) (canonLabel (cutLabel l.name id)) with
+    rw [hc]
+    simp only
+    have hs := partnerOf_isSome (rKey r) _ rid hrm hrc
+    cases hpo : partnerOf (rKey r) (canonLabel p) with
     | none => rw [hpo] at hs; cases hs
     | some rid' => exact (partnerOf_some (rKey r) _ rid' hpo).1
 
-/-- `unless`: the left ids whose canonical label set no right id has -/
-theorem mem_binop_unless (b : Bool) (l r : Res) (id : Str) :
-    id ∈ outIds (binop .unless b l r) ↔ id ∈ vecIds l ∧ labelSetOf l.name id ∉ rightLabelSets r := by
-  have e : outIds (binop .unless b l r) =
-      (outIds (leftPass .unless b l r)).filter (fun i => !(rightLabelSets r).contains (labelSetOf l.name i)) := by
-    simp only [binop, outIds, List.filter_map]
-    rfl
-  rw [e, outIds_leftPass]
-  simp [List.mem_filter]
+/-! ### per timestamp (repair c09-19) -/
+
+theorem filterMap_if {α β : Type} (l : List α) (c : α → Bool) (g : α → β) :
+    l.filterMap (fun a => if c a then some (g a) else none) = (l.filter c).map g := by
+  induction l with
+  | nil => rfl
+  | cons a t ih => cases h : c a <;> simp [h, ih]
+
+/-- `and` between a left series and its partner series: the left samples at the timestamps the partner has too -/
+theorem leftPts_and (b : Bool) (pl rp : Pts) :
+    leftPts .and b pl (some rp) =
+      (pl.filter (fun p => (ptAt? rp p.1).isSome)).map (fun p => (p.1, Val.num (p.2 : Rat))) := by
+  rw [← filterMap_if]
+  simp only [leftPts, Option.bind_some]
+  congr 1
+  funext p
+  cases h : ptAt? rp p.1 <;> simp [setFinal]
+
+/-- `unless`: the left samples at the timestamps the partner does not have … -/
+theorem leftPts_unless_some (b : Bool) (pl rp : Pts) :
+    leftPts .unless b pl (some rp) =
+      (pl.filter (fun p => (ptAt? rp p.1).isNone)).map (fun p => (p.1, Val.num (p.2 : Rat))) := by
+  rw [← filterMap_if]
+  simp only [leftPts, Option.bind_some]
+  congr 1
+  funext p
+  cases h : ptAt? rp p.1 <;> simp [setFinal]
+
+/-- … all of them when there is no partner series -/
+theorem leftPts_unless_none (b : Bool) (pl : Pts) :
+    leftPts .unless b pl none = pl.map (fun p => (p.1, Val.num (p.2 : Rat))) := by
+  simp only [leftPts, Option.bind_none]
+  induction pl with
+  | nil => rfl
+  | cons p t _ => simp [setFinal]
+
+/-- arithmetic: a sample is written only at a timestamp that BOTH series have (never from a right value read as 0) -/
+theorem leftPts_needs_both (op : Op) (b : Bool) (pl : Pts) (rp : Option Pts) (hop : op ≠ .or ∧ op ≠ .unless)
+    (t : Nat) (v : Val) (h : (t, v) ∈ leftPts op b pl rp) :
+    (∃ x, (t, x) ∈ pl) ∧ ∃ q, rp = some q ∧ (ptAt? q t).isSome := by
+  simp only [leftPts, List.mem_filterMap] at h
+  obtain ⟨⟨t', x⟩, hp, hf⟩ := h
+  have h1 : (op == Op.or) = false := by simp [hop.1]
+  have h2 : (op == Op.unless) = false := by simp [hop.2]
+  simp only at hf
+  cases hb : rp.bind (ptAt? · t') with
+  | none => simp [hb, h1, h2] at hf
+  | some y =>
+    simp only [hb, h2, Bool.false_eq_true, if_false, Option.map_eq_some_iff] at hf
+    obtain ⟨w, _, hw⟩ := hf
+    have ht : t' = t := by simpa using congrArg Prod.fst hw
+    subst ht
+    refine ⟨⟨x, hp⟩, ?_⟩
+    cases rp with
+    | none => simp at hb
+    | some q => exact ⟨q, rfl, by simp only [Option.bind_some] at hb; simp [hb]⟩
+
+/-- `unless`: the entries of the answer are the left series with the samples that `leftPts` keeps, without those that keep none -/
+theorem binop_unless_eq (b : Bool) (l r : Res) :
+    binop .unless b l r = (leftPass .unless b l r).filter (fun e => !e.2.isEmpty) := rfl
 
 /-- under well-formed right ids, the canonical label sets of the right vector are those of its label parts -/
 theorem mem_rightLabelSets (r : Res) (hr : wellFormed r) (c : Str) :
-    c ∈ rightLabelSets r ↔ ∃ q, r.name ++ q ∈ vecIds r ∧ canonLabel q = c := by
+    c ∈ rightLabelSets r ↔ ∃ q, r.name ++ q ∈ vecIds r ∧ partOK q ∧ canonLabel q = c := by
   simp only [rightLabelSets, List.mem_map, vecIds]
   constructor
   · rintro ⟨e, he, h⟩
-    obtain ⟨q, hq⟩ := hr e.1 (by simp only [vecIds, List.mem_map]; exact ⟨e, he, rfl⟩)
-    exact ⟨q, ⟨e, he, hq⟩, by rw [← h, hq, labelSetOf_append]⟩
-  · rintro ⟨q, ⟨e, he, h⟩, hc⟩
-    exact ⟨e, he, by rw [h, labelSetOf_append, hc]⟩
+    obtain ⟨q, hq, hok⟩ := hr e.1 (by simp only [vecIds, List.mem_map]; exact ⟨e, he, rfl⟩)
+    exact ⟨q, ⟨e, he, hq⟩, hok, by rw [← h, hq, labelSetOf_append _ _ hok]⟩
+  · rintro ⟨q, ⟨e, he, h⟩, hok, hc⟩
+    exact ⟨e, he, by rw [h, labelSetOf_append _ _ hok, hc]⟩
 
 end SigModel.Lemmas.C09bin
